@@ -7,6 +7,7 @@ pub mod c09;
 pub mod c12;
 pub mod c14;
 pub mod c15;
+pub mod c16;
 pub mod c18;
 pub mod c19;
 pub mod c20;
@@ -35,6 +36,7 @@ pub fn all_checks() -> Vec<Box<dyn driver::Check>> {
         Box::new(c12::C12),
         Box::new(c14::C14),
         Box::new(c15::C15),
+        Box::new(c16::C16),
         Box::new(c18::C18),
         Box::new(c19::C19),
         Box::new(crashchecks::c01()),
